@@ -25,11 +25,15 @@ const MFT_SERIAL: u64 = 11;
 fn rc(c: &str, s: &[&str]) -> ResChoice {
     ResChoice { c: c.into(), s: s.iter().map(|x| x.to_string()).collect() }
 }
-fn file_name(o: &str) -> &'static str {
-    match o { "r1" => "r1.roa", "r2" => "r2.roa", "c1" => "c1.cer", _ => "ca.crl" }
+/// objects are named r<i> (a ROA) or c<i> (the certificate of a child CA); anything else is the CRL / the manifest
+fn file_name(o: &str) -> String {
+    match o.as_bytes().first() { Some(b'r') => format!("{o}.roa"), Some(b'c') => format!("{o}.cer"), _ => "ca.crl".to_string() }
+}
+fn index_of(o: &str) -> u64 {
+    o[1..].parse().unwrap_or(0)
 }
 fn serial_of(o: &str) -> u64 {
-    match o { "r1" => 21, "r2" => 22, "c1" => 31, _ => MFT_SERIAL }
+    match o.as_bytes().first() { Some(b'r') => 20 + index_of(o), Some(b'c') => 30 + index_of(o), _ => MFT_SERIAL }
 }
 fn sha256(data: &[u8]) -> Vec<u8> {
     crate::cms::sha256(data)
@@ -81,21 +85,30 @@ impl World {
         Some(self.cached(format!("{o}/{sig}/{res}"), |w| {
             let key = w.pki.key(if sig == "ca" { "k0" } else { "k1" });
             let wide = Validity::new(w.hours(-2), w.hours(2));
-            if o == "c1" {
+            if o.starts_with('c') {
                 let p = CertParams {
                     kind: "ca".into(), key: "k2".into(), sig_key: if sig == "ca" { "k0".into() } else { "k1".into() }, aki: if sig == "ca" { "k0".into() } else { "k1".into() },
                     ski_ok: true, tamper: "none".into(), nb: 0, na: 2, policy: "refuse".into(),
-                    v4: rc("blocks", &[if res == "inside" { "a1" } else { "a3" }]), v6: rc("missing", &[]), asn: rc("missing", &[]), serial: serial_of(&o), raw: None,
+                    v4: rc("blocks", &[if res == "inside" { "a1" } else { "a3" }]), v6: rc("missing", &[]), asn: rc("missing", &[]), serial: serial_of(&o),
+                    // further child certificates hold (or over-claim) a /26 each
+                    raw: if index_of(&o) > 1 {
+                        use rpki::repository::resources::{AsResources, IpBlock, IpBlocks, IpResources, Prefix};
+                        let p = if res == "inside" { format!("10.0.0.{}/26", 64 * (index_of(&o) % 4)) } else { format!("10.9.{}.0/26", index_of(&o)) };
+                        let b: IpBlocks = [IpBlock::from(Prefix::from_v4_str(&p).unwrap())].into_iter().collect();
+                        Some((IpResources::blocks(b), IpResources::missing(), AsResources::missing()))
+                    } else { None },
                     validity: Some(wide),
                 };
                 build_cert(&w.pki, &p, &w.router)
             } else {
                 let mut b = RoaBuilder::new(Asn::from_u32(64496));
                 let (addr, len) = match (o.as_str(), res.as_str()) {
-                    ("r1", "inside") => ("10.0.0.0", 25), ("r2", "inside") => ("10.0.2.0", 24), ("r1", _) => ("10.9.0.0", 24), _ => ("10.0.4.0", 24),
+                    ("r1", "inside") => ("10.0.0.0".to_string(), 25), ("r2", "inside") => ("10.0.2.0".to_string(), 24), ("r1", _) => ("10.9.0.0".to_string(), 24), ("r2", _) => ("10.0.4.0".to_string(), 24),
+                    // further ROAs: a /28 inside atom a2 (10.0.2.0/23), or one outside everything the CA holds
+                    (_, "inside") => (format!("10.0.3.{}", 16 * (index_of(&o) % 16)), 28), _ => (format!("10.8.{}.0", index_of(&o)), 24),
                 };
                 b.push_addr(addr.parse().unwrap(), len, None);
-                b.finalize(w.sob(serial_of(&o), wide, file_name(&o)), &w.pki.signer, &key).unwrap().to_captured().into_bytes().to_vec()
+                b.finalize(w.sob(serial_of(&o), wide, &file_name(&o)), &w.pki.signer, &key).unwrap().to_captured().into_bytes().to_vec()
             }
         }))
     }
@@ -169,6 +182,13 @@ fn revoked(w: &World, crl_bytes: &[u8], serial: Serial) -> Result<bool, String> 
 }
 
 fn run(w: &mut World, c: &Value) -> Result<(), (String, String)> {
+    run_walk(w, c, None)
+}
+
+/// `record`: None = follow the model's steps and compare every outcome; Some(events) = a free walk: the steps of `c["log"]` are the
+/// order in which to attempt things, outcomes are whatever the library says, the walk ends where a relying party's would, and every
+/// step taken is recorded (impl -> spec direction)
+fn run_walk(w: &mut World, c: &Value, mut record: Option<&mut Vec<Value>>) -> Result<(), (String, String)> {
     let (pp, obj) = (&c["pp"], &c["obj"]);
     // ---- the repository and the manifest that describes it
     let mut repo: HashMap<String, Vec<u8>> = HashMap::new();
@@ -180,14 +200,16 @@ fn run(w: &mut World, c: &Value) -> Result<(), (String, String)> {
         "badhash" => listing.push(("ca.crl".into(), { let mut h = sha256(&crl_bytes); h[31] ^= 0x01; h })),
         _ => {}
     }
-    for o in ["c1", "r1", "r2"] {
+    let mut names: Vec<String> = obj.as_object().unwrap().keys().cloned().collect();
+    names.sort();
+    for o in names.iter().map(|x| x.as_str()) {
         let f = &obj[o];
         let bytes = w.object(o, f);
         let honest = bytes.as_ref().map(|b| sha256(b)).unwrap_or_else(|| sha256(o.as_bytes()));
         match f["listed"].as_str().unwrap() {
-            "ok" => listing.push((file_name(o).into(), honest)),
-            // a listed hash that is wrong in its last octet (r1), in its first octet (r2), altogether (c1)
-            "badhash" => listing.push((file_name(o).into(), match o {
+            "ok" => listing.push((file_name(o), honest)),
+            // a listed hash that is wrong in its last octet (r1), in its first octet (r2), altogether (the others)
+            "badhash" => listing.push((file_name(o), match o {
                 "r1" => { let mut h = honest.clone(); h[31] ^= 0x80; h }
                 "r2" => { let mut h = honest.clone(); h[0] ^= 0x01; h }
                 _ => sha256(format!("not {o}").as_bytes()),
@@ -195,7 +217,7 @@ fn run(w: &mut World, c: &Value) -> Result<(), (String, String)> {
             _ => {}
         }
         if let Some(b) = bytes {
-            repo.insert(file_name(o).into(), b);
+            repo.insert(file_name(o), b);
         }
     }
     let mft_bytes = w.manifest(pp, &listing);
@@ -207,7 +229,8 @@ fn run(w: &mut World, c: &Value) -> Result<(), (String, String)> {
         content.iter().find(|f| f.file().as_ref() == name.as_bytes()).map(|f| ManifestHash::new(f.hash().clone(), content.file_hash_alg()))
     };
     for st in c["log"].as_array().unwrap() {
-        let (step, o, want) = (st["step"].as_str().unwrap(), st["o"].as_str().unwrap(), st["ok"].as_bool().unwrap());
+        let (mut step, o, want) = (st["step"].as_str().unwrap(), st["o"].as_str().unwrap(), st["ok"].as_bool().unwrap_or(true));
+        let free = record.is_some();
         let got: bool = match step {
             "manifest" => {
                 let mut verdicts = Vec::new();
@@ -257,11 +280,14 @@ fn run(w: &mut World, c: &Value) -> Result<(), (String, String)> {
             "mft-revoked" => !revoked(w, &crl_bytes, mft_ee.as_ref().unwrap().as_cert().serial_number()).map_err(|m| ("crl:lookups".to_string(), m))?,
             "file" | "object" => {
                 let cont = content.as_ref().unwrap();
-                let name = file_name(o);
+                let name = &file_name(o);
                 let file_ok = match (entry(cont, name), repo.get(name)) {
                     (Some(h), Some(bytes)) => h.verify(bytes).is_ok(),
                     _ => false,
                 };
+                if free && !file_ok {
+                    step = "file";
+                }
                 if step == "file" {
                     // the model took this step because the listed file is missing or altered
                     file_ok
@@ -269,7 +295,7 @@ fn run(w: &mut World, c: &Value) -> Result<(), (String, String)> {
                     return Err(("file:hash".into(), format!("the listed hash of {name} does not verify against the very bytes it was computed from")));
                 } else {
                     let bytes = Bytes::from(repo[name].clone());
-                    let ok = if o == "c1" {
+                    let ok = if o.starts_with('c') {
                         let cert = Cert::decode(bytes).map_err(|e| ("object:decode".to_string(), e.to_string()))?;
                         let serial = cert.serial_number();
                         let v = cert.clone().validate_ca(&w.ca, true).is_ok();
@@ -317,6 +343,14 @@ fn run(w: &mut World, c: &Value) -> Result<(), (String, String)> {
             }
             other => panic!("unknown step {other}"),
         };
+        if let Some(ev) = record.as_mut() {
+            ev.push(json!({"ev": "step", "step": step, "o": o, "ok": got}));
+            if !got && step != "object" {
+                accepted.clear();
+                break;
+            }
+            continue;
+        }
         if got != want {
             return Err((format!("step:{step}:{}", if got { "accepted" } else { "rejected" }),
                         format!("step {step} {o}: the library says {got}, the specification {want} (pp {pp}, {o}: {})", obj[o])));
@@ -324,6 +358,11 @@ fn run(w: &mut World, c: &Value) -> Result<(), (String, String)> {
         if !got && step != "object" {
             accepted.clear();
         }
+    }
+    if let Some(ev) = record.as_mut() {
+        accepted.sort();
+        ev.push(json!({"ev": "end", "accepted": accepted}));
+        return Ok(());
     }
     let mut want: Vec<String> = c["accepted"].as_array().unwrap().iter().map(|x| x.as_str().unwrap().to_string()).collect();
     want.sort();
@@ -351,5 +390,56 @@ pub fn replay(args: &[String]) {
             s.sample(json!({"pp": c["pp"], "accepted": c["accepted"], "steps": c["log"].as_array().unwrap().len()}));
         }
     }
+    s.print();
+}
+
+
+/// impl -> spec: random publication points (2 to 6 objects, any number of deviations), walked the way a relying party would - the
+/// listed files in a random order - with every step and its outcome recorded.
+pub fn drive(args: &[String]) {
+    let seed = arg_u64(args, "--seed", 1);
+    let n = arg_u64(args, "--n", 40);
+    let out = arg_val(args, "--out").expect("--out");
+    let mut rng = Rng::new(seed);
+    let mut t = TraceOut::create(&out);
+    let mut s = Summary::new();
+    let mut w = World::new();
+    for i in 0..n {
+        let k = rng.range(2, 6);
+        let mut names: Vec<String> = (1..=k).map(|j| format!("{}{}", if rng.chance(1, 3) { "c" } else { "r" }, j)).collect();
+        let pick = |rng: &mut Rng, good: &str, bad: &[&str], p: u64| -> String { if rng.chance(1, p) { rng.pick(bad).to_string() } else { good.to_string() } };
+        let mut obj = serde_json::Map::new();
+        for o in &names {
+            obj.insert(o.clone(), json!({"listed": pick(&mut rng, "ok", &["badhash", "unlisted"], 8), "present": pick(&mut rng, "yes", &["no"], 12),
+                                         "sig": pick(&mut rng, "ca", &["other"], 5), "res": pick(&mut rng, "inside", &["outside"], 5)}));
+        }
+        let revokes = if rng.chance(1, 3) { if rng.chance(1, 5) { "mft".to_string() } else { rng.pick(&names).clone() } } else { "none".to_string() };
+        let pp = json!({"mftsig": pick(&mut rng, "ca", &["other"], 12), "mfttime": pick(&mut rng, "ok", &["eeexpired", "stale"], 10),
+                        "crlsig": pick(&mut rng, "ca", &["other"], 12), "crltime": pick(&mut rng, "ok", &["stale"], 12),
+                        "crllisted": pick(&mut rng, "ok", &["badhash", "unlisted"], 12), "revokes": revokes});
+        // the order in which the relying party takes the listed files
+        for a in (1..names.len()).rev() { let b = rng.below(a as u64 + 1) as usize; names.swap(a, b); }
+        let mut log = vec![json!({"step": "manifest", "o": ""}), json!({"step": "crl", "o": ""}), json!({"step": "mft-revoked", "o": ""})];
+        for o in &names {
+            if obj[o]["listed"] != "unlisted" {
+                log.push(json!({"step": "object", "o": o}));
+            }
+        }
+        let world = json!({"pp": pp, "obj": Value::Object(obj), "log": log, "accepted": []});
+        let mut events = vec![json!({"ev": "world", "pp": world["pp"], "obj": world["obj"]})];
+        match guarded(|| { let mut ev = Vec::new(); run_walk(&mut w, &world, Some(&mut ev)).map(|_| ev) }) {
+            Ok(Ok(ev)) => {
+                events.extend(ev);
+                let acc = events.last().unwrap()["accepted"].as_array().map(|a| a.len()).unwrap_or(0);
+                s.count("accepted_objects", acc as u64);
+                s.count(if acc > 0 { "walks_accepting" } else { "walks_empty" }, 1);
+                for e in events { t.ev(e); }
+            }
+            Ok(Err((k, m))) => s.violation(&k, m, json!({"seed": seed, "i": i, "world": world})),
+            Err(m) => s.violation("panic", m, json!({"seed": seed, "i": i})),
+        }
+        s.eval(Some(&format!("{i}")));
+    }
+    s.set("events", json!(t.finish()));
     s.print();
 }
